@@ -77,6 +77,11 @@ func (P *Prog) checkAddShape(r *Result) {
 		if c, ok := cv(v).(*ssa.Const); ok && c.Value == nil {
 			return true // a nil slice
 		}
+		if mk, ok := cv(v).(*ssa.MakeSlice); ok {
+			if k, isK := constInt(cv(mk.Len)); isK && k == 0 {
+				return true // make(list, 0, n)
+			}
+		}
 		return false
 	}
 	lookupOf := func(v ssa.Value) *ssa.Lookup {
